@@ -437,21 +437,24 @@ func (h *harness) report(key, id string, lim limits, shown, msg string) {
 	h.ctx.Report(key, id, fmt.Sprintf("limits=%s record=%s\n%s", lim.name, shown, msg), shown)
 }
 
-func (h *harness) run(id string, lim limits, st *sentinels, bad string) {
+// run registers one case. The record is built inside the case (build), so that a replay - which walks the whole
+// enumeration to find one id - does not construct millions of records.
+func (h *harness) run(id string, lim limits, st *sentinels, nontrivial bool, build func() string) {
 	ctx := h.ctx
 	if !ctx.Mine() {
 		ctx.Skip()
 		return
 	}
-	if h.sess != nil && (h.blim.name != lim.name || h.bst != st) {
-		h.flushBatch()
-		h.sess = nil
-	}
-	shown := fmt.Sprintf("%q", bad)
-	if len(bad) > 600 {
-		shown = fmt.Sprintf("%q...(%d bytes)...%q", bad[:300], len(bad), bad[len(bad)-200:])
-	}
-	ctx.Case(id, len(bad) >= 32 && bad[0] == '<', shown, func() (string, string) {
+	ctx.Case(id, nontrivial, id, func() (string, string) {
+		if h.sess != nil && (h.blim.name != lim.name || h.bst != st) {
+			h.flushBatch()
+			h.sess = nil
+		}
+		bad := build()
+		shown := fmt.Sprintf("%q", bad)
+		if len(bad) > 600 {
+			shown = fmt.Sprintf("%q...(%d bytes)...%q", bad[:300], len(bad), bad[len(bad)-200:])
+		}
 		key, msg := h.step(id, lim, st, bad, shown)
 		if key == "" {
 			return "", ""
